@@ -25,11 +25,14 @@ import (
 
 	"github.com/smallstep/nosql"
 	"github.com/smallstep/nosql/database"
+
+	"github.com/smallstep/certificates/cas/apiv1"
+	"github.com/smallstep/certificates/cas/softcas"
 )
 
 // Fault kinds on the line protocol (the model's Outcome): error, timeout, deny, malformed.
 // Sub selects the realisation where several exist (webhook error: "5xx" | "refused";
-// webhook deny: "deny" | "4xx").
+// webhook malformed: "garbage" | "4xx").
 type Fault struct {
 	Pos  int
 	Kind string
@@ -42,12 +45,13 @@ type Recorder struct {
 	pos    int
 	faults map[int]Fault
 	events []string
+	ids    []string // per event: which webhook endpoint it went to ("" for other calls)
 }
 
 func (r *Recorder) start(fs []Fault) {
 	r.mu.Lock()
 	defer r.mu.Unlock()
-	r.on, r.pos, r.events = true, 0, nil
+	r.on, r.pos, r.events, r.ids = true, 0, nil, nil
 	r.faults = map[int]Fault{}
 	for _, f := range fs {
 		r.faults[f.Pos] = f
@@ -75,12 +79,24 @@ func (r *Recorder) next() (idx int, f Fault, active bool) {
 	return idx, r.faults[idx], true
 }
 
-func (r *Recorder) log(kind, outcome string) {
+func (r *Recorder) log(kind, outcome string, id ...string) {
 	r.mu.Lock()
 	defer r.mu.Unlock()
 	if r.on {
 		r.events = append(r.events, kind+":"+outcome)
+		if len(id) > 0 {
+			r.ids = append(r.ids, id[0])
+		} else {
+			r.ids = append(r.ids, "")
+		}
 	}
+}
+
+// endpoints returns, for the events of the last recording, the webhook endpoint of each.
+func (r *Recorder) endpoints() []string {
+	r.mu.Lock()
+	defer r.mu.Unlock()
+	return append([]string(nil), r.ids...)
 }
 
 // ---------------------------------------------------------------------------- database
@@ -104,6 +120,16 @@ func stepKind(op string, bucket []byte) string {
 		return "storeRev"
 	case (op == "update" || op == "set") && (b == "x509_certs" || b == "ssh_certs"):
 		return "store"
+	case op == "get" && b == "x509_crl":
+		return "crlRead"
+	case op == "list" && b == "revoked_x509_certs":
+		return "crlList"
+	case op == "set" && b == "x509_crl":
+		return "crlStore"
+	case op == "cas" && b == "nonces":
+		return "acmeNonceNew"
+	case op == "update" && b == "nonces":
+		return "acmeNonceUse"
 	case op == "get" && strings.HasPrefix(b, "acme_"):
 		return "acmeRead"
 	case op == "cas" && b == "acme_certs":
@@ -313,13 +339,17 @@ func (t *faultTransport) RoundTrip(req *http.Request) (*http.Response, error) {
 		kind = "enrich"
 	case strings.HasPrefix(req.URL.Path, "/authorize"):
 		kind = "authorize"
+	case strings.HasPrefix(req.URL.Path, "/challenge"):
+		kind = "challenge"
+	case strings.HasPrefix(req.URL.Path, "/notify"):
+		kind = "notify"
 	}
 	req = req.Clone(req.Context())
 	switch f.Kind {
 	case "":
-		t.rec.log(kind, "ok")
+		t.rec.log(kind, "ok", req.URL.Path)
 	case "error":
-		t.rec.log(kind, "error")
+		t.rec.log(kind, "error", req.URL.Path)
 		if f.Sub == "refused" {
 			req.URL.Host = t.closed
 			req.Host = t.closed
@@ -327,20 +357,67 @@ func (t *faultTransport) RoundTrip(req *http.Request) (*http.Response, error) {
 			req.Header.Set(faultHeader, "5xx")
 		}
 	case "deny":
-		t.rec.log(kind, "deny")
+		t.rec.log(kind, "deny", req.URL.Path)
+		req.Header.Set(faultHeader, "deny")
+	case "malformed": // not a usable answer: an undecodable body, or an error status below 500
+		t.rec.log(kind, "malformed", req.URL.Path)
 		if f.Sub == "4xx" {
 			req.Header.Set(faultHeader, "4xx")
 		} else {
-			req.Header.Set(faultHeader, "deny")
+			req.Header.Set(faultHeader, "garbage")
 		}
-	case "malformed":
-		t.rec.log(kind, "malformed")
-		req.Header.Set(faultHeader, "garbage")
 	case "timeout":
-		t.rec.log(kind, "timeout")
+		t.rec.log(kind, "timeout", req.URL.Path)
 		req.Header.Set(faultHeader, "hang")
 	default:
 		return nil, fmt.Errorf("verif: unknown fault kind %q", f.Kind)
 	}
 	return t.base.RoundTrip(req)
+}
+
+// ---------------------------------------------------------------------------- CAS
+
+// faultCAS is the certificate authority service the authority signs with: the in-process
+// SoftCAS (built from the fixture's intermediate and signer exactly as WithX509Signer does),
+// with the recorder in front of the calls a request makes.
+type faultCAS struct {
+	*softcas.SoftCAS
+	rec *Recorder
+}
+
+var errCAS = errors.New("verif: injected CAS failure")
+
+func casCall[T any](c *faultCAS, kind string, inner func() (T, error)) (T, error) {
+	var zero T
+	_, f, active := c.rec.next()
+	if !active {
+		return inner()
+	}
+	switch f.Kind {
+	case "":
+		c.rec.log(kind, "ok")
+		return inner()
+	case "timeout": // signed / revoked at the CAS, answer lost
+		inner()
+		c.rec.log(kind, "timeout")
+		return zero, errCAS
+	}
+	c.rec.log(kind, f.Kind)
+	return zero, errCAS
+}
+
+func (c *faultCAS) CreateCertificate(req *apiv1.CreateCertificateRequest) (*apiv1.CreateCertificateResponse, error) {
+	return casCall(c, "casSign", func() (*apiv1.CreateCertificateResponse, error) { return c.SoftCAS.CreateCertificate(req) })
+}
+
+func (c *faultCAS) RenewCertificate(req *apiv1.RenewCertificateRequest) (*apiv1.RenewCertificateResponse, error) {
+	return casCall(c, "casSign", func() (*apiv1.RenewCertificateResponse, error) { return c.SoftCAS.RenewCertificate(req) })
+}
+
+func (c *faultCAS) RevokeCertificate(req *apiv1.RevokeCertificateRequest) (*apiv1.RevokeCertificateResponse, error) {
+	return casCall(c, "casRevoke", func() (*apiv1.RevokeCertificateResponse, error) { return c.SoftCAS.RevokeCertificate(req) })
+}
+
+func (c *faultCAS) CreateCRL(req *apiv1.CreateCRLRequest) (*apiv1.CreateCRLResponse, error) {
+	return casCall(c, "casCRL", func() (*apiv1.CreateCRLResponse, error) { return c.SoftCAS.CreateCRL(req) })
 }
